@@ -418,6 +418,8 @@ def misspelt(spec, acc):
             big_diagram_with_absent_component(rnd, acc)
         if i % 8 == 0:
             anything_batch_reapplied(rnd, acc)
+        if i % 8 == 4:
+            anything_batch_over_dying_architectures(rnd, acc)
         mods = random_tree(rnd, 6, 11)
         imps = random_imports(rnd, mods, k_max=8)
         limit = rnd.choice([None, None, 1, 2])
@@ -607,6 +609,42 @@ def anything_batch_reapplied(rnd, acc):
     acc.count("rule_objects_with_an_absent_name_first_applied_where_it_exists")
 
 
+def anything_batch_over_dying_architectures(rnd, acc, forced=None, rounds=10):
+    """The same 'anything' rule over [P, P.child] in a build / evaluate / drop loop in which P.child comes and goes (a
+    module that is deleted and restored between two runs of a watch mode) and every architecture most likely lives where its
+    dead predecessor did: wherever P.child is absent, the rule names an unknown module and must not give a verdict."""
+    from ..drive import Recycler, mk_rule
+
+    if forced:
+        mods, imps, cfg, child, has = forced["mods"], [tuple(i) for i in forced["imps"]], forced["cfg"], forced["child"], forced["has"]
+        cfg = dict(cfg, subs=[tuple(x) for x in cfg["subs"]])
+    else:
+        mods = random_tree(rnd, 6, 11)
+        imps = random_imports(rnd, mods, k_max=8)
+        p = rnd.choice([m for m in mods if m != "r"])
+        child = p + "." + rnd.choice(["legacy", "zz_new", "v2"])
+        if child in mods:
+            return
+        fk = rnd.choice(["named", "named", "sub"])
+        members = [(fk, p), (fk, child)]
+        if rnd.random() < 0.5:
+            members.reverse()
+        cfg = {"verb": "should_not", "dir": rnd.choice(["import", "be"]), "exc": False, "subs": members, "objs": [], "anything": True}
+        has = [rnd.random() < 0.5 for _ in range(rounds)]
+    rc = Recycler()
+    kept = mk_rule(cfg, list_form=True)
+    for i, h in enumerate(has):
+        ms = list(mods) + [child] if h else list(mods)
+        evl = rc.next(ms, imps)
+        HUB.case = {"kind": "anything-batch-dying-architectures", "mods": mods, "imps": imps, "cfg": cfg, "child": child, "has": has, "round": i}
+        run(kept if i % 2 else mk_rule(cfg, list_form=True), evl)
+        acc.evaluated()
+        if not h:
+            acc.count("anything_rules_with_an_absent_name_on_recycled_architectures")
+        del evl
+    rc.drop()
+
+
 def big_diagram_with_absent_component(rnd, acc):
     """20-45 components whose drawn arrows are (mostly) not realised - so dozens of generated rules are violated - and
     one component that does not exist, declared first / last / isolated / as the target or source of one arrow."""
@@ -714,6 +752,8 @@ def replay(case, acc):
         for step in case["order"] + case["order"][:1]:
             HUB.case = dict(case, step=step)
             run(robj, evs[step])
+    elif k == "anything-batch-dying-architectures":
+        anything_batch_over_dying_architectures(random.Random(0), acc, forced=case)
     elif k == "misspelt-reapplied":
         from ..drive import mk_rule
 
@@ -742,7 +782,7 @@ def floors(acc, tier):
         for c in need:
             if acc.hists.get(hist, {}).get(c, 0) == 0:
                 why.append(f"{hist}: class {c} never observed")
-    for c, n in (("c13_rule_evaluations", 5000), ("c13_layer_evaluations", 500), ("c13_diagram_evaluations", 50), ("c13_entry_point_invalid_calls", 50), ("c13_unknown_module_evaluations", 300), ("c13_unmatched_regex_evaluations", 50), ("c13_calls_that_must_raise", 100), ("several_patterns_one_unmatched", 50), ("c13_diagram_unknown_component_evaluations", 50), ("diagram_rules_reconfigured_after_application", 50), ("batches_with_one_misspelt_member", 50), ("anything_batches_with_one_misspelt_member", 10), ("rule_histories_with_an_empty_batch", 50), ("big_diagrams_with_an_absent_component", 5), ("rule_objects_with_an_absent_name_first_applied_where_it_exists", 50), ("batches_with_the_misspelt_member_first_in_another_container", 30)):
+    for c, n in (("c13_rule_evaluations", 5000), ("c13_layer_evaluations", 500), ("c13_diagram_evaluations", 50), ("c13_entry_point_invalid_calls", 50), ("c13_unknown_module_evaluations", 300), ("c13_unmatched_regex_evaluations", 50), ("c13_calls_that_must_raise", 100), ("several_patterns_one_unmatched", 50), ("c13_diagram_unknown_component_evaluations", 50), ("diagram_rules_reconfigured_after_application", 50), ("batches_with_one_misspelt_member", 50), ("anything_batches_with_one_misspelt_member", 10), ("rule_histories_with_an_empty_batch", 50), ("big_diagrams_with_an_absent_component", 5), ("rule_objects_with_an_absent_name_first_applied_where_it_exists", 50), ("batches_with_the_misspelt_member_first_in_another_container", 30), ("anything_rules_with_an_absent_name_on_recycled_architectures", 100), ("architectures_built_at_the_address_of_a_dead_predecessor", 100)):
         if acc.counters[c] < n:
             why.append(f"{c}: only {acc.counters[c]}")
     acc.flags["exhaustive"] = all(acc.flags.get(f) for f in ("exhaustive_rule_sequences", "exhaustive_layer_sequences", "exhaustive_mutations", "exhaustive_entry_options"))
